@@ -225,8 +225,23 @@ package db
 //@   ghost var theConn int = 0
 //@   ghost update @db.roDB.Conn: theConn = result0
 //@   ghost update @?conn.ExecContext#1: inReadTx = (result1 == nil && arg1 == "BEGIN")
-//@   assert @db.queryWithConn: [one-read-transaction] inReadTx && arg3 == theConn && !arg1.Transaction
+//@   assert @db.queryWithConn: [one-read-transaction] inReadTx && arg3 == theConn
 //@   loop 1 invariant [tx-open] inReadTx
 //@   loop 2 invariant [tx-open] inReadTx
 //@   loop 3 invariant [tx-open] inReadTx
 //@   loop 4 invariant [tx-open] inReadTx
+//
+// Online backup: nil only after the step loop reported the copy done and Finish returned nil; a
+// failing step ends the copy with that error.
+//@ func copyDatabaseConnection
+//@   ghost var stepDone bool = false
+//@   ghost var stepErr error = nil
+//@   ghost var finErr error = nil
+//@   ghost update @bk.Step: stepDone = (result1 == nil && result0)
+//@   ghost update @bk.Step: stepErr = result1
+//@   assert @bk.Step: [whole-database] arg0 == -1 && !stepDone
+//@   loop 1 invariant [not-done-yet] !stepDone && stepErr == nil
+//@   assert @bk.Finish#2: [finish-after-done] stepDone
+//@   ghost update @bk.Finish#2: finErr = result
+//@   ensures [nil-means-copied] result == nil ==> (stepDone && finErr == nil)
+//@   ensures [step-error-returned] stepErr != nil ==> result == stepErr
